@@ -222,11 +222,11 @@ CLAIMED = {
          "the compilation of a chaining contextual rule into stored Backtrack/Input/LookAhead arrays with the OpenType matching rule, tied to "
          "feaLib/otlLib by differential runs (formats 1, 2 and 3 through ChainContextualBuilder). Theorems: a printed value record parses "
          "back, in the same context, to a record with the same meaning and printing is a fixed point; a compiled chaining rule matches at "
-         "exactly the positions where the rule as written matches, for glyph, class and coverage elements. The rest of the language is "
+         "exactly the positions where the rule as written matches, for glyph, class and coverage elements; the ligature subtable built from a set of rules applies at every position a longest matching rule, whatever the order of the rules (reading of the subtable tied to HarfBuzz). The rest of the language is "
          "checked on the implementation: every corpus .fea and generated programs printed, re-parsed, re-printed and compiled both ways, and "
          "generated GSUB/GPOS programs (two families: nested contextual calls and positioning; GDEF marks with lookup flags, inline rules and "
          "reverse chaining) shaped by HarfBuzz against reference interpreters of the rule text (testing).",
-         "Rocq proof of value-record round trip and chaining-rule compilation over a model tied by differential correspondence + asFea/HarfBuzz sweeps"),
+         "Rocq proof of value-record round trip, chaining-rule and ligature-rule compilation over a model tied by differential correspondence + asFea/HarfBuzz sweeps"),
 }
 
 def main():
